@@ -45,6 +45,10 @@ parser! {
 
 		/// For comma-delimited elements
 		rule comma() = quiet!{_ "," _} / expected!("<comma>")
+		/// Items separated by commas; a trailing comma is only allowed after an item
+		rule comma_list<T>(x: rule<T>) -> Vec<T>
+			= items:(x() ++ comma()) comma()? {items}
+			/ {Vec::new()}
 		rule alpha() -> char = c:$(['_' | 'a'..='z' | 'A'..='Z']) {c.chars().next().unwrap()}
 		rule digit() -> char = d:$(['0'..='9']) {d.chars().next().unwrap()}
 		rule end_of_ident() = !['0'..='9' | '_' | 'a'..='z' | 'A'..='Z']
@@ -69,7 +73,7 @@ parser! {
 
 		pub rule param(s: &ParserSettings) -> ExprParam = destruct:destruct(s) expr:(_ "=" _ expr:expr(s){expr})? { ExprParam { destruct, default: expr.map(Rc::new) } }
 		pub rule params(s: &ParserSettings) -> ExprParams
-			= params:param(s) ** comma() comma()? {?
+			= params:comma_list(<param(s)>) {?
 				if ExprParams::duplicate_name(&params).is_some() {
 					return Err("<unique parameter name>")
 				}
@@ -81,7 +85,7 @@ parser! {
 			= name:(quiet! { (s:id() _ "=" !['='] _ {s})? } / expected!("<argument name>")) expr:expr(s) {(name, Rc::new(expr))}
 
 		pub rule args(s: &ParserSettings) -> ArgsDesc
-			= args:arg(s)**comma() comma()? {?
+			= args:comma_list(<arg(s)>) {?
 				let unnamed_count = args.iter().take_while(|(n, _)| n.is_none()).count();
 				let mut unnamed = Vec::with_capacity(unnamed_count);
 				let mut named = Vec::with_capacity(args.len() - unnamed_count);
@@ -214,7 +218,7 @@ parser! {
 			/ assertion:assertion(s) {Member::AssertStmt(assertion)}
 			/ field:field(s) {Member::Field(field)}
 		pub rule objinside(s: &ParserSettings) -> ObjBody
-			=  members:(member(s) ** comma()) comma()? _ compspecs:compspecs(s)? {?
+			=  members:comma_list(<member(s)>) _ compspecs:compspecs(s)? {?
 				Ok(if let Some(compspecs) = compspecs {
 					let mut locals = Vec::new();
 					let mut field = None;
@@ -264,13 +268,13 @@ parser! {
 				Ok(specs)
 			}
 		pub rule local_expr(s: &ParserSettings) -> Expr
-			= keyword("local") _ binds:bind(s) ** comma() (_ ",")? _ ";" _ expr:expr(s) { Expr::LocalExpr(binds, Box::new(expr)) }
+			= keyword("local") _ binds:bind(s) ++ comma() (_ ",")? _ ";" _ expr:expr(s) { Expr::LocalExpr(binds, Box::new(expr)) }
 		pub rule string_expr(s: &ParserSettings) -> Expr
 			= s:string() {Expr::Str(s.into())}
 		pub rule obj_expr(s: &ParserSettings) -> Expr
 			= "{" _ body:objinside(s) _ "}" {Expr::Obj(body)}
 		pub rule array_expr(s: &ParserSettings) -> Expr
-			= "[" _ elems:(expr(s) ** comma()) _ comma()? "]" {Expr::Arr(Rc::new(elems))}
+			= "[" _ elems:comma_list(<expr(s)>) _ "]" {Expr::Arr(Rc::new(elems))}
 		pub rule array_comp_expr(s: &ParserSettings) -> Expr
 			= "[" _ expr:expr(s) _ comma()? _ specs:(r: compspecs(s) _ {r}) "]" {
 				Expr::ArrComp(Rc::new(expr), specs)
